@@ -19,9 +19,10 @@ type vGenSess struct {
 	reqB     int
 	hasB     bool
 	o        *vOut
-	focus    string // property id the run is for (VERIF_ARGS focus=Cxx): biases the generator, never restricts soundness
-	lens     []int  // payload lengths of the latest write / data ops (what a reader may find queued)
-	forms    bool   // this session signals some remote candidates through non-canonical address literals
+	focus    string   // property id the run is for (VERIF_ARGS focus=Cxx): biases the generator, never restricts soundness
+	lens     []int    // payload lengths of the latest write / data ops (what a reader may find queued)
+	forms    bool     // this session signals some remote candidates through non-canonical address literals
+	tcp      bool     // this session mixes TCP candidates with UDP ones
 	fl       []string // the in-flight datagrams as printed by the implementation ("src>dst:…"), for directed scenarios
 	seq      int      // running number of the directed scenario of this kind (cycles through its variants)
 }
@@ -53,6 +54,49 @@ func (g *vGenSess) fm() string {
 		return " 1"
 	}
 	return ""
+}
+
+// pickTCP decides whether the session mixes TCP candidates (tcp4/tcp6, any tcptype) with UDP ones: local TCP
+// candidates ride on the same in-memory hub, remote ones are signalled active / passive / simultaneous-open /
+// without tcptype, the same ip:port may be used over both transports, and duplicates may differ in the tcptype only.
+// Never for C01 (clean two-agent UDP sessions).
+func (g *vGenSess) pickTCP() {
+	switch g.focus {
+	case "C01":
+		g.tcp = false
+	case "C06":
+		g.tcp = g.r.chance(1, 3)
+	case "":
+		g.tcp = g.r.chance(1, 5)
+	default:
+		g.tcp = g.r.chance(1, 8)
+	}
+	if g.tcp {
+		g.o.stat("sess.tcp")
+	}
+}
+
+// tcpCfg: configuration suffix of an agent in a TCP session (tcp4/tcp6 among its network types, mostly)
+func (g *vGenSess) tcpCfg() string {
+	if g.tcp && !g.r.chance(1, 4) {
+		return ",tcp=1"
+	}
+	return ""
+}
+
+func (g *vGenSess) tt() string { return []string{"p", "p", "a", "s", "-"}[g.r.intn(5)] }
+
+// remTail: what follows `<rel>` in an addremote op: nothing / the literal form / form and tcptype
+func (g *vGenSess) remTail(tt string) string {
+	if tt == "" {
+		return g.fm()
+	}
+	f := 0
+	if g.fm() != "" {
+		f = 1
+	}
+	g.o.stat("addremote.tt." + tt)
+	return fmt.Sprintf(" %d %s", f, tt)
 }
 
 func (g *vGenSess) sawLen(n int) {
@@ -204,6 +248,36 @@ func vAgentGen(o *vOut, r *vRand, thorough bool, args []string, emit func(string
 
 var vPrios = []int{2130706431, 2130706430, 1694498815, 1862270975, 16777215, 100, 1}
 
+// netFor: the network index of an address id in a session whose IP family is net0 (ids from vTCPBase on are TCP)
+func netFor(net0, addr int) int {
+	if addr >= vTCPBase {
+		return net0%2 + 2
+	}
+	return net0 % 2
+}
+
+// locTT / remTT: tcptype tokens for a candidate at this address id: none for UDP ids
+func (g *vGenSess) locTT(addr int) string {
+	if addr >= vTCPBase {
+		return " " + g.tt()
+	}
+	return ""
+}
+
+func (g *vGenSess) remTT(addr int) string {
+	if addr >= vTCPBase {
+		return g.remTail(g.tt())
+	}
+	return g.fm()
+}
+
+func ttTok(tt string) string {
+	if tt == "" {
+		return ""
+	}
+	return " " + tt
+}
+
 func (g *vGenSess) prio() int {
 	if g.r.chance(1, 4) {
 		return vPrios[0] // equal priorities on purpose
@@ -219,28 +293,47 @@ func (g *vGenSess) double() {
 	renom := r.chance(1, 4) || (g.focus == "C20" && r.chance(3, 4))
 	g.o.stat("sess.double")
 	g.pickForms()
-	g.op("new %s %s", g.cfg("A", false, renom), g.cfg("B", liteB, false))
+	g.pickTCP()
+	g.op("new %s%s %s%s", g.cfg("A", false, renom), g.tcpCfg(), g.cfg("B", liteB, false), g.tcpCfg())
 	na, nb := 1+r.intn(3), 1+r.intn(3)
 	if liteB {
 		g.o.stat("sess.liteB")
 	}
-	type lc struct{ addr, prio, net int }
+	type lc struct {
+		addr, prio, net int
+		tt              string // "" = a UDP candidate (no tcptype token in its ops)
+	}
 	var la, lb []lc
 	net0 := 0
 	if r.chance(1, 6) {
 		net0 = 1
 	}
+	mk := func(k int) []lc {
+		c := lc{k, g.prio(), net0, ""}
+		if g.tcp && r.chance(1, 2) {
+			// a TCP candidate at this ip:port (transport-tagged id) …
+			t := lc{vTCPBase + k, g.prio(), net0 + 2, g.tt()}
+			if r.chance(1, 3) {
+				return []lc{c, t} // … next to the UDP candidate on the same ip:port
+			}
+			return []lc{t}
+		}
+		return []lc{c}
+	}
 	for i := 0; i < na; i++ {
-		la = append(la, lc{16 * (1 + i), g.prio(), net0})
+		la = append(la, mk(16*(1+i))...)
 	}
 	for i := 0; i < nb; i++ {
-		lb = append(lb, lc{16 * (11 + i), g.prio(), net0})
+		lb = append(lb, mk(16*(11+i))...)
 	}
+	na, nb = len(la), len(lb)
 	// topology
 	natA := -1
+	natMapped := 16 * 21
 	if r.chance(1, 4) {
 		natA = r.intn(na)
-		g.op("nat %d %d", la[natA].addr, 16*21)
+		natMapped += la[natA].addr / vTCPBase * vTCPBase
+		g.op("nat %d %d", la[natA].addr, natMapped)
 		g.o.stat("topo.nat")
 	}
 	for i := range la {
@@ -259,27 +352,38 @@ func (g *vGenSess) double() {
 	var steps []step
 	for _, c := range la {
 		c := c
-		steps = append(steps, func() { g.op("addlocal A 1 %d %d %d -", c.net, c.addr, c.prio) })
+		steps = append(steps, func() { g.op("addlocal A 1 %d %d %d -%s", c.net, c.addr, c.prio, ttTok(c.tt)) })
 	}
 	for _, c := range lb {
 		c := c
-		steps = append(steps, func() { g.op("addlocal B 1 %d %d %d -", c.net, c.addr, c.prio) })
+		steps = append(steps, func() { g.op("addlocal B 1 %d %d %d -%s", c.net, c.addr, c.prio, ttTok(c.tt)) })
+	}
+	// the tcptype a candidate is signalled with: its own, sometimes another one (a duplicate that differs in the
+	// tcptype only when it is signalled again)
+	sigTT := func(c lc) string {
+		if c.tt != "" && r.chance(1, 4) {
+			return g.tt()
+		}
+		return c.tt
 	}
 	sigA := func(i int) { // tell B about A's candidate i
 		c := la[i]
 		if i == natA {
 			switch r.intn(3) {
 			case 0: // signalled as srflx at the mapped address
-				g.op("addremote B 2 %d %d %d %d%s", c.net, 16*21, g.prio(), c.addr, g.fm())
+				g.op("addremote B 2 %d %d %d %d%s", c.net, natMapped, g.prio(), c.addr%vTCPBase, g.remTail(sigTT(c)))
 			case 1: // host address (unreachable form) only: B must discover the prflx
-				g.op("addremote B 1 %d %d %d -%s", c.net, c.addr, c.prio, g.fm())
+				g.op("addremote B 1 %d %d %d -%s", c.net, c.addr, c.prio, g.remTail(sigTT(c)))
 			default:
 			}
 			return
 		}
-		g.op("addremote B 1 %d %d %d -%s", c.net, c.addr, c.prio, g.fm())
+		g.op("addremote B 1 %d %d %d -%s", c.net, c.addr, c.prio, g.remTail(sigTT(c)))
 	}
-	sigB := func(j int) { c := lb[j]; g.op("addremote A 1 %d %d %d -%s", c.net, c.addr, c.prio, g.fm()) }
+	sigB := func(j int) {
+		c := lb[j]
+		g.op("addremote A 1 %d %d %d -%s", c.net, c.addr, c.prio, g.remTail(sigTT(c)))
+	}
 	for i := range la {
 		i := i
 		if !r.chance(1, 8) {
@@ -543,18 +647,18 @@ func (g *vGenSess) randomAction(gen *int, addrA, addrB, net0 int) {
 		if g.hasB && r.chance(2, 3) {
 			ub, pb := fmt.Sprintf("uB%d", *gen), fmt.Sprintf("pB%d", *gen)
 			g.op("restart B %s %s", ub, pb)
-			g.op("addlocal B 1 %d %d %d -", net0, addrB, g.prio())
+			g.op("addlocal B 1 %d %d %d -%s", netFor(net0, addrB), addrB, g.prio(), g.locTT(addrB))
 			g.op("creds B %s %s", ua, pa)
 			g.op("creds A %s %s", ub, pb)
-			g.op("addlocal A 1 %d %d %d -", net0, addrA, g.prio())
-			g.op("addremote A 1 %d %d %d -%s", net0, addrB, g.prio(), g.fm())
-			g.op("addremote B 1 %d %d %d -%s", net0, addrA, g.prio(), g.fm())
+			g.op("addlocal A 1 %d %d %d -%s", netFor(net0, addrA), addrA, g.prio(), g.locTT(addrA))
+			g.op("addremote A 1 %d %d %d -%s", netFor(net0, addrB), addrB, g.prio(), g.remTT(addrB))
+			g.op("addremote B 1 %d %d %d -%s", netFor(net0, addrA), addrA, g.prio(), g.remTT(addrA))
 		} else {
-			g.op("addlocal A 1 %d %d %d -", net0, addrA, g.prio())
+			g.op("addlocal A 1 %d %d %d -%s", netFor(net0, addrA), addrA, g.prio(), g.locTT(addrA))
 			if g.hasB {
 				g.op("creds B %s %s", ua, pa)
 				g.op("creds A uB0 pB0")
-				g.op("addremote A 1 %d %d %d -%s", net0, addrB, g.prio(), g.fm())
+				g.op("addremote A 1 %d %d %d -%s", netFor(net0, addrB), addrB, g.prio(), g.remTT(addrB))
 			}
 		}
 	case x < 97:
@@ -564,7 +668,11 @@ func (g *vGenSess) randomAction(gen *int, addrA, addrB, net0 int) {
 		}
 		g.op("creds %s %s %s", w, []string{"uB0", "uX", "_"}[r.intn(3)], []string{"pB0", "pX", "_"}[r.intn(3)])
 	case x < 98:
-		g.op("addremote A %d %d %d %d %s%s", 1+r.intn(4), net0, 16*(11+r.intn(4))+r.intn(2), g.prio(), []string{"-", "-", "0", "160"}[r.intn(4)], g.fm())
+		ta := 16*(11+r.intn(4)) + r.intn(2)
+		if g.tcp && r.chance(1, 2) {
+			ta += vTCPBase // the same pool of ip:port over TCP: duplicates that differ in transport / tcptype only
+		}
+		g.op("addremote A %d %d %d %d %s%s", 1+r.intn(4), netFor(net0, ta), ta, g.prio(), []string{"-", "-", "0", "160"}[r.intn(4)], g.remTT(ta))
 	default:
 		if r.chance(1, 8) {
 			g.op("adv %d", 2000+r.intn(30000))
@@ -669,17 +777,38 @@ func (g *vGenSess) single() {
 	g.o.stat("sess.single")
 	lite := r.chance(1, 5) || (g.focus == "C04" && r.chance(1, 4))
 	g.pickForms()
-	g.op("new %s -", g.cfg("A", lite, r.chance(1, 3)))
+	g.pickTCP()
+	g.op("new %s%s -", g.cfg("A", lite, r.chance(1, 3)), g.tcpCfg())
 	net0 := 0
 	addrA := 16
-	g.op("addlocal A 1 %d %d %d -", net0, addrA, g.prio())
+	tbase := 0 // the peer's candidates live on the transport of A's first local candidate
+	if g.tcp && r.chance(1, 2) {
+		addrA, tbase = vTCPBase+16, vTCPBase
+		if r.chance(1, 3) {
+			g.op("addlocal A 1 %d %d %d -", net0, 16, g.prio()) // the same ip:port over UDP as well
+		}
+	}
+	g.op("addlocal A 1 %d %d %d -%s", netFor(net0, addrA), addrA, g.prio(), g.locTT(addrA))
 	if r.chance(1, 2) {
-		g.op("addlocal A 1 %d %d %d -", net0, 32, g.prio())
+		a2 := 32
+		if g.tcp && r.chance(1, 2) {
+			a2 += vTCPBase
+		}
+		g.op("addlocal A 1 %d %d %d -%s", netFor(net0, a2), a2, g.prio(), g.locTT(a2))
 	}
 	nrem := 1 + r.intn(3)
 	for j := 0; j < nrem; j++ {
 		if r.chance(3, 4) {
-			g.op("addremote A %d %d %d %d %s%s", []int{1, 1, 2, 4}[r.intn(4)], net0, 16*(11+j), g.prio(), []string{"-", "0"}[r.intn(2)], g.fm())
+			ra := tbase + 16*(11+j)
+			g.op("addremote A %d %d %d %d %s%s", []int{1, 1, 2, 4}[r.intn(4)], netFor(net0, ra), ra, g.prio(), []string{"-", "0"}[r.intn(2)], g.remTT(ra))
+			if tbase != 0 && r.chance(1, 3) {
+				// the same candidate again with another tcptype, or over UDP
+				if r.chance(1, 2) {
+					g.op("addremote A 1 %d %d %d -%s", netFor(net0, ra), ra, g.prio(), g.remTT(ra))
+				} else {
+					g.op("addremote A 1 %d %d %d -%s", net0, ra-tbase, g.prio(), g.fm())
+				}
+			}
 		}
 	}
 	role := r.intn(2)
